@@ -2,6 +2,7 @@ package harness
 
 import (
 	"encoding/json"
+	"runtime"
 	"sort"
 )
 
@@ -9,3 +10,12 @@ func jsonMarshal(v interface{}) ([]byte, error)   { return json.Marshal(v) }
 func jsonUnmarshal(b []byte, v interface{}) error { return json.Unmarshal(b, v) }
 
 func sortStrings(a []string) { sort.Strings(a) }
+
+// setProcs sets GOMAXPROCS for the case at hand and leaves it there (the next case sets its own): every change
+// makes the run-time create or destroy its per-processor state, and under the race detector that path has crashed
+// (SIGSEGV in __tsan::ThreadContext::OnFinished, seen once in a soak run), so it is taken no more often than needed.
+func setProcs(n int) {
+	if n > 0 && runtime.GOMAXPROCS(0) != n {
+		runtime.GOMAXPROCS(n)
+	}
+}
